@@ -150,6 +150,18 @@ pub struct KeyRef<K> {
     k: *const K,
 }
 
+// `KeyRef` deliberately has drop glue (a no-op). The hash index stores `(KeyRef<K>,
+// NonNull<EntryNode>)` pairs; for element types *without* drop glue, hashbrown releases
+// before 0.16 (and the `std` HashMap built on them) do not fix up their element count when
+// the user's `Hash` / `BuildHasher` panics in the middle of an in-place rehash, and the
+// map's iterators then run past the table (undefined behaviour when the cache is dropped,
+// cloned or resized afterwards). With drop glue the same code path removes the entries it
+// could not rehash, which only orphans their nodes.
+impl<K> Drop for KeyRef<K> {
+    #[inline]
+    fn drop(&mut self) {}
+}
+
 impl<K: Hash> Hash for KeyRef<K> {
     fn hash<H: Hasher>(&self, state: &mut H) {
         unsafe { (*self.k).hash(state) }
